@@ -522,7 +522,7 @@ func famJSON(N int) []func(slot int) {
 
 func main() {
 	rep = engine.NewReport("C08")
-	rep.Rule = "per decoder: (a) every byte string of length <= L over {00,01,02,0a,7f,80,ff}; (b) every truncation, single-byte substitution (same alphabet) and length-prefix overwrite of every seed encoding; (c) self-consistent wrong-size data arrays / height maps; (d) every JSON token sequence of <= N tokens; (e) every command line of length <= M over {a,b,\",\\,space,tab} x every command graph, (e2) every line of <= MW symbols over {a,b,\",\\,space,X} containing X, for every X of a menu of blanks, controls, multi-byte and malformed UTF-8 sequences; (g) every ordered pair (thorough: triple) of inputs decoded into one destination; (h) every declared length of a sweep menu for every length-prefixed leaf (full / no / short body) and every located prefix of every small seed rewritten with every n <= N2 (counted as evaluations only, not as distinct cases: a few coincide with (a)/(b)); (i) every NBT-consuming decoder on every nesting shape x depth of a menu reaching the deepest nesting a 2 MiB frame can hold. distinct = distinct (decoder, bytes, written-site) triples: (a),(d),(e) are injective enumerations, (b)/(c) are deduplicated by an exact set per decoder and against (a); non-trivial = all (every input is handed to the decoder, from a bytes.Reader and from a plain io.Reader)"
+	rep.Rule = "per decoder: (a) every byte string of length <= L over {00,01,02,0a,7f,80,ff}; (b) every truncation, single-byte substitution (same alphabet) and length-prefix overwrite of every seed encoding; (c) self-consistent wrong-size data arrays / height maps; (d) every JSON token sequence of <= N tokens; (e) every command line of length <= M over {a,b,\",\\,space,tab} x every command graph, (e2) every line of <= MW symbols over {a,b,\",\\,space,X} containing X, for every X of a menu of blanks, controls, multi-byte and malformed UTF-8 sequences; (g) every ordered pair (thorough: triple) of inputs decoded into one destination; (h) every declared length of a sweep menu for every length-prefixed leaf (full / no / short body) and every located prefix of every small seed rewritten with every n <= N2 (counted as evaluations only, not as distinct cases: a few coincide with (a)/(b)); (i) every NBT-consuming decoder on every nesting shape x depth of a menu reaching the deepest nesting a 2 MiB frame can hold; (j) declared counts of 2^28 and more (32-bit byte-count overflow) on the length-prefixed leaves. distinct = distinct (decoder, bytes, written-site) triples: (a),(d),(e) are injective enumerations, (b)/(c) are deduplicated by an exact set per decoder and against (a); non-trivial = all (every input is handed to the decoder, from a bytes.Reader and from a plain io.Reader)"
 	wd = engine.NewWatchdog(engine.Workers()+1, 20*time.Second, func(desc string) {
 		var c Case
 		json.Unmarshal([]byte(desc), &c)
@@ -554,6 +554,7 @@ func main() {
 	jobs = append(jobs, famInflated(4)...)
 	jobs = append(jobs, famReuse(rep.Thorough())...)
 	jobs = append(jobs, famNesting()...)
+	jobs = append(jobs, famOverflow()...)
 	if rep.Thorough() {
 		jobs = append(jobs, famSweep(4200, 1100)...)
 	} else {
@@ -596,6 +597,8 @@ func main() {
 		return n
 	}())
 	rep.Count("famI_nesting_cases", nestingCases)
+	rep.Count("famJ_overflow_probes", overflowCases)
+	rep.Extra("overflow_probes", "declared counts 2^28, 2^28+3 (8-byte elements), 2^29 (4-byte), 2^30, 2^31-1 (bytes) on the length-prefixed leaves, prefix + 3 bytes, one at a time")
 	rep.Extra("nesting_shapes", nestShapes)
 	rep.Extra("nesting_depths", nestDepths)
 	rep.Count("famH_length_sweep_inputs", sweepInputs)
@@ -707,6 +710,18 @@ func replay() {
 	}
 	if c.Kind == "nesting" {
 		replayNesting(c)
+	}
+	if c.Kind == "overflow" {
+		var n int64
+		fmt.Sscanf(c.Origin, "famJ:declared-count:%d", &n)
+		d := findDecoder(c.Decoder)
+		if d == nil || n == 0 {
+			engine.HarnessError("bad overflow case %+v", c)
+		}
+		for i := 0; i < 5; i++ {
+			runOverflowProbe(0, d, n)
+		}
+		rep.Finish()
 	}
 	if c.Kind == "reuse" {
 		u := findReusable(c.Decoder)
